@@ -44,7 +44,9 @@ def classify(run, v):
 def judge(ctx, run, meta, sched):
     _sched.judge_rules(ctx, run, meta, sched, RULES, classify)
     for arn in getattr(run, "never_terminated", []) or []:
-        ctx.violation("execution-never-terminates", S.witness_of(run, dict(arn=arn, family=meta.get("family"), schedule_name=sched)), None)
+        # the listed finding: a cancelled child that was inside a fan-out (it has join state) is only tidied up, never ended
+        mech = "cancelled-child-inside-fan-out-never-ends" if (meta.get("child_inside_fanout") and ":execution:m:" in arn) else None
+        ctx.violation("execution-never-terminates", S.witness_of(run, dict(arn=arn, family=meta.get("family"), schedule_name=sched, meta=meta)), mech)
     late = getattr(run, "late_notifications", None)
     if late:
         ctx.violation("notification-long-after-all-executions-ended", S.witness_of(run, dict(late=[n["body"]["detail"]["status"] for n in late], family=meta.get("family"))), None)
@@ -127,6 +129,7 @@ def run(ctx):
         scn = {"machines": {"m": {"asl": asl}}, "funcs": dict(F.FUNCS), "starts": [{"machine": "m", "name": "e0", "input": {"items": F.items(n, depth=0)}}]}
         _sched.run_dfs(ctx, scn, dict(family="dfs-%s-%d-%s" % (kind, n, fail), kind=kind), judge, ctx.pick(120, 4000))
     handled_and_caught_families(ctx)
+    cancelled_child_families(ctx)
 
 
 def handled_and_caught_families(ctx):
@@ -191,6 +194,31 @@ def handled_and_caught_families(ctx):
                                 ctx.violation("execution-never-terminates", S.witness_of(run, dict(arn=arn, family="handled-failure", meta=meta)), mech(None, "never"))
                         finally:
                             S.close(run)
+
+
+def cancelled_child_families(ctx):
+    """A synchronous child is given up by its parent (the launching Task times out, or a sibling branch of the parent fails) while the child is INSIDE a
+    Parallel/Map state: the child is an execution like any other and must still end exactly once."""
+    W = lambda sec, **kw: dict(Type="Wait", Seconds=sec, **kw)
+    children = {
+        "parallel": {"StartAt": "P", "States": {"P": {"Type": "Parallel", "Branches": [F.chain([("Ca", W(10)), ("Cb", F.T("echo"))]), F.chain([("Cc", F.T("slow30"))])], "Next": "Cz"},
+                                                "Cz": F.T("echo", End=True)}},
+        "map": {"StartAt": "M", "States": {"M": {"Type": "Map", "ItemsPath": "$.items", "ItemProcessor": F.chain([("Ca", W(10)), ("Cb", F.T("echo"))]), "Next": "Cz"}, "Cz": F.T("echo", End=True)}},
+        "nested": {"StartAt": "M", "States": {"M": {"Type": "Map", "ItemsPath": "$.items", "MaxConcurrency": 1, "ItemProcessor": F.chain([("P", {"Type": "Parallel", "Branches": [
+            F.chain([("Ca", W(10))]), F.chain([("Cc", F.T("slow30"))])]})]), "End": True}}},
+        "sequential": {"StartAt": "Ca", "States": {"Ca": W(10, Next="Cb"), "Cb": F.T("echo", End=True)}},
+    }
+    i = 0
+    for cname, child in children.items():
+        for variant in ("parent-timeout", "sibling-fails"):
+            i += 1
+            if not ctx.mine(i):
+                continue
+            scn = {"machines": {"m": {"asl": child, "type": "STANDARD"}}, "funcs": dict(F.FUNCS), "starts": [{"machine": "m", "name": "k", "input": {"items": F.items(2, depth=0)}}]}
+            scn = with_child(scn, variant)
+            meta = dict(family="cancelled-child", child=cname, variant=variant, child_inside_fanout=cname != "sequential")
+            ctx.count("family:cancelled-child"); ctx.count("child:" + variant)
+            _sched.run_schedules(ctx, scn, meta, judge, ctx.pick(3, 10), ["c02cc", i], record_every=1)
 
 
 def witnesses(ctx):
